@@ -40,6 +40,7 @@ import (
 	"strconv"
 	"strings"
 	"sync"
+	"sync/atomic"
 	"time"
 
 	"google.golang.org/protobuf/types/known/timestamppb"
@@ -242,6 +243,12 @@ type opNode struct {
 	done    chan error
 	deploy  *workerpb.DeployOperatorRequest
 	cluster *generation
+	wrote   bool // processed a write since its deployment
+	// alias: this operator refers to shared table files under a different spelling of their URIs (".../x/./f.sst"),
+	// as if it lived in another process: table files are reference counted per process by URI, so without this an
+	// in-process neighbour that still holds a table would keep every other operator's cleanup from even asking
+	alias bool
+	asked atomic.Int32
 }
 
 func (n *opNode) ID() string   { return n.id }
@@ -251,11 +258,103 @@ func (n *opNode) Deploy(ctx context.Context, req *workerpb.DeployOperatorRequest
 	// counters of one operator's WAL replay do not interleave with another's (no effect on the operators)
 	n.cluster.deployMu.Lock()
 	defer n.cluster.deployMu.Unlock()
+	if n.alias {
+		for _, ck := range req.Checkpoints {
+			if uri, err := aliasDoc(ck.DkvFileUri, n.id); err == nil {
+				ck.DkvFileUri = uri
+			} else {
+				return err
+			}
+		}
+	}
 	n.deploy = req
 	return n.op.HandleDeploy(ctx, req, nil)
 }
 func (n *opNode) NeedsTable(ctx context.Context, uri string) (bool, error) {
-	return n.op.HandleNeedsTable(uri), nil
+	n.asked.Add(1)
+	if n.alias {
+		// tables restored from the aliased document carry the alias spelling, tables of its own later checkpoints the plain one
+		return n.op.HandleNeedsTable(aliasURI(uri)) || n.op.HandleNeedsTable(uri), nil
+	}
+	return n.op.HandleNeedsTable(strings.Replace(uri, "/./", "/", 1)), nil
+}
+
+// aliasURI spells the same file differently: /a/b/f.sst -> /a/b/./f.sst
+func aliasURI(uri string) string {
+	i := strings.LastIndex(uri, "/")
+	if i < 0 || strings.HasSuffix(uri[:i], "/.") {
+		return uri
+	}
+	return uri[:i] + "/." + uri[i:]
+}
+
+// aliasDoc copies a DKV checkpoints document with every table and WAL URI re-spelled.
+func aliasDoc(docURI, who string) (string, error) {
+	path := strings.TrimPrefix(docURI, "file://")
+	b, err := os.ReadFile(path)
+	if err != nil {
+		return "", err
+	}
+	var d map[string]any
+	if err := json.Unmarshal(b, &d); err != nil {
+		return "", err
+	}
+	var walk func(v any)
+	walk = func(v any) {
+		switch x := v.(type) {
+		case map[string]any:
+			for k, e := range x {
+				if s, ok := e.(string); ok && (k == "URI" || k == "uri") {
+					x[k] = aliasURI(s)
+				} else {
+					walk(e)
+				}
+			}
+		case []any:
+			for _, e := range x {
+				walk(e)
+			}
+		}
+	}
+	walk(d)
+	out, err := json.Marshal(d)
+	if err != nil {
+		return "", err
+	}
+	dst := path + ".alias-" + who
+	if err := os.WriteFile(dst, out, 0o644); err != nil {
+		return "", err
+	}
+	return strings.TrimSuffix(docURI, path) + dst, nil
+}
+
+// docTables lists the table URIs of checkpoint id in a DKV checkpoints document.
+func docTables(docURI string, id uint64) []string {
+	b, err := os.ReadFile(strings.TrimPrefix(docURI, "file://"))
+	if err != nil {
+		return nil
+	}
+	var d struct {
+		Checkpoints []struct {
+			ID     uint64                   `json:"id"`
+			Levels [][]struct{ URI string } `json:"levels"`
+		} `json:"checkpoints"`
+	}
+	if json.Unmarshal(b, &d) != nil {
+		return nil
+	}
+	var out []string
+	for _, c := range d.Checkpoints {
+		if c.ID != id {
+			continue
+		}
+		for _, l := range c.Levels {
+			for _, t := range l {
+				out = append(out, t.URI)
+			}
+		}
+	}
+	return out
 }
 func (n *opNode) UpdateRetainedCheckpoints(ctx context.Context, ids []uint64) error { return nil }
 
@@ -285,6 +384,7 @@ type run struct {
 	count   int
 	keys    [][]byte // subject key of k (1-based: keys[k-1])
 	keyNo   map[string]int
+	genNo   int
 	gens    []*generation // all generations stay referenced until the behaviour ends
 	cur     *generation
 	ckptID  uint64
@@ -368,6 +468,11 @@ func (r *run) deploy(step int, n int, regime string, st mbt.Step) bool {
 		r.serial++
 		id := fmt.Sprintf("g%do%d-%03d", len(r.gens)+1, j, r.serial)
 		nd := &opNode{id: id, h: &refHandler{}, done: make(chan error, 1), cluster: g}
+		if r.genNo >= 1 { // operators deployed by a rescale (not the first generation)
+			for _, a := range r.in.Ints("AliasOps") {
+				nd.alias = nd.alias || a == j
+			}
+		}
 		nd.op = operator.NewOperator(operator.NewOperatorParams{ID: id, Host: id + "-host", Job: g.job, UserHandler: nd.h,
 			Clock:         clocks.NewFrozenClock(),
 			EventBatching: batching.EventBatcherParams{MaxSize: 1, Timer: &opkit.Timer{}},
@@ -391,8 +496,17 @@ func (r *run) deploy(step int, n int, regime string, st mbt.Step) bool {
 		r.violate(step, fmt.Sprintf("jobs.Assembly.Deploy of %d operators from checkpoint %d failed: %v", n, r.ckptID, err), nil, err.Error())
 		return false
 	}
-	if r.in.CfgBool("GC", false) {
-		// C09 arm: the replaced (halted) operators become garbage, as after a real redeploy; only storage keeps their work
+	r.genNo++
+	for _, og := range r.gens {
+		for _, nd := range og.nodes {
+			r.res.Count("needs_table_calls", int(nd.asked.Swap(0)))
+		}
+	}
+	if r.in.CfgBool("GC", false) && len(r.in.Ints("AliasOps")) == 0 {
+		// C09 arm: the replaced (halted) operators become garbage, as after a real redeploy; only storage keeps their
+		// work. (Not with aliased operators: an aliased operator does not share the per-process reference count of the
+		// tables its predecessor wrote itself, so the predecessor's unconditional own-table cleanup would delete them -
+		// real predecessors in other processes die without running cleanups.)
 		r.gens = nil
 	}
 	r.gens = append(r.gens, g)
@@ -516,6 +630,15 @@ func pairs(v any) [][2]int {
 	return out
 }
 
+func indexOf(nodes []*opNode, nd *opNode) int {
+	for i, x := range nodes {
+		if x == nd {
+			return i
+		}
+	}
+	return -1
+}
+
 // checkpoint: barrier to the operators in the given order (0-based); the acks in arrival order
 func (r *run) checkpoint(step int, order []int) bool {
 	r.ckptID++
@@ -574,7 +697,10 @@ func replay(bi int, beh []mbt.Step, in *mbt.Input, res *mbt.Result) {
 	defer func() {
 		for _, g := range r.gens {
 			for _, nd := range g.nodes {
-				nd.op.Halt()
+				res.Count("needs_table_calls", int(nd.asked.Swap(0)))
+				if nd.op != nil {
+					nd.op.Halt()
+				}
 				nd.cancel()
 			}
 		}
@@ -582,6 +708,9 @@ func replay(bi int, beh []mbt.Step, in *mbt.Input, res *mbt.Result) {
 	layoutDrift := false
 	var lastExp map[string]any
 	for si, st := range beh {
+		if os.Getenv("RESCALE_TRACE") != "" {
+			fmt.Fprintf(os.Stderr, "STEP %d %v\n", si, st)
+		}
 		if r.failed {
 			break
 		}
@@ -652,6 +781,7 @@ func replay(bi int, beh []mbt.Step, in *mbt.Input, res *mbt.Result) {
 			if flushNext {
 				r.rot++
 				r.pending[o]++
+				r.cur.nodes[o].wrote = true
 				db, err := hooks.awaitStart(r.rot)
 				if err != nil {
 					r.machinery("step %d: %v", si, err)
